@@ -1358,6 +1358,11 @@ impl GraphDatabase {
     pub async fn delete_nodes(&self, mut nodes: Vec<NodeDeletionEntry>, reply: Sender<Result<()>>) {
         for node in &mut nodes {
             let entity_name = self.data_model.name_for(&node.entity);
+            if let Some(name) = &entity_name {
+                if let Ok(entity) = self.data_model.get_entity(name) {
+                    node.enable_full_text = entity.enable_full_text;
+                }
+            }
             node.entity_name = entity_name;
         }
         let auth_service = self.auth_service.clone();
